@@ -796,6 +796,98 @@ func (g *gen) chains(b *base) {
 	}
 }
 
+// randStructured: a transaction-shaped list built from scratch (not from a signed base): every element
+// has the right shape with probability ~0.85 and one of the wrong shapes otherwise; signed with the library
+// for the payload its own elements define (so that only the shape checks stand between it and acceptance)
+// or left with a random signature.
+func (g *gen) randStructured(r *cv.Rand, keys []*secp256k1.KeyPair) {
+	typed := r.Bool()
+	chain := int64(r.Pick([]int{0, 1, 5, 1337, 1 << 31}))
+	rint := func() *elem {
+		switch r.Intn(5) {
+		case 0:
+			return str(nil)
+		case 1:
+			return str([]byte{byte(1 + r.Intn(255))})
+		default:
+			b := r.Bytes(1 + r.Intn(9))
+			if b[0] == 0 {
+				b[0] = 1
+			}
+			return str(b)
+		}
+	}
+	wrong := func(e *elem) *elem {
+		switch r.Intn(7) {
+		case 0:
+			return lst()
+		case 1:
+			return lst(e.clone())
+		case 2:
+			return str(append([]byte{0}, e.data...))
+		case 3:
+			return str([]byte{0})
+		case 4:
+			return str(r.Bytes(19))
+		case 5:
+			return str(r.Bytes(21 + r.Intn(20)))
+		default:
+			return str(nil)
+		}
+	}
+	var l []*elem
+	to := str(nil)
+	if r.Intn(3) != 0 {
+		to = str(r.Bytes(20))
+	}
+	data := str(r.Bytes(r.Pick([]int{0, 1, 4, 36, 55, 56, 100})))
+	if typed {
+		l = []*elem{num64(chain), rint(), rint(), rint(), rint(), to, rint(), data, lst()}
+	} else {
+		l = []*elem{rint(), rint(), rint(), to, rint(), data}
+	}
+	nf := len(l)
+	dev := 0
+	for i := range l {
+		if r.Intn(7) == 0 {
+			l[i] = wrong(l[i])
+			dev++
+		}
+	}
+	eip155 := r.Bool()
+	k := keys[r.Intn(len(keys))]
+	var full []*elem
+	if r.Intn(4) != 0 {
+		full = resign(typed, append(l, str(nil), str(nil), str(nil)), k, chain, eip155)
+	} else {
+		v := int64(27 + r.Intn(2))
+		if typed {
+			v -= 27
+		} else if eip155 {
+			v += chain*2 + 8
+		}
+		full = append(append([]*elem{}, l...), num64(v), str(r.Bytes(32)), str(r.Bytes(32)))
+	}
+	// deviations in the signature part and in the element count
+	switch r.Intn(12) {
+	case 0:
+		full[nf] = wrong(full[nf])
+	case 1:
+		full[nf+1] = wrong(full[nf+1])
+	case 2:
+		full[nf+2] = wrong(full[nf+2])
+	case 3:
+		full = full[:len(full)-1]
+	case 4:
+		full = append(full, rint())
+	}
+	kind := "random-structured:canonical"
+	if dev > 0 {
+		kind = "random-structured:deviating"
+	}
+	g.addAll(kind, assemble(typed, full), chain, r.Intn(3) == 0)
+}
+
 // ---------- sweep digest, mirrors Tx/RunC10.v ----------
 
 func mulmodp(a, b uint64) uint64 {
@@ -1024,6 +1116,15 @@ func main() {
 	// every type byte, for one legacy and one typed transaction
 	g.typeBytes(bases[1])
 	g.typeBytes(bases[2])
+
+	// --- transaction-shaped lists built from scratch ---
+	nStruct := 300
+	if thorough {
+		nStruct = 4000
+	}
+	for i := 0; i < nStruct; i++ {
+		g.randStructured(r, keys)
+	}
 
 	// --- random bytes up to 64 KiB ---
 	nR := 250
